@@ -428,6 +428,21 @@ def _valid_code_predicate(c: Ctx, r: RuleResult) -> None:
                 if e.func.id == "any":
                     return T if any(v == T for v in vals) else F if all(v == F for v in vals) else B
                 return F if any(v == F for v in vals) else T if all(v == T for v in vals) else B
+            tg_ = g.target.elts if isinstance(g.target, (ast.Tuple, ast.List)) else None
+            if elts is not None and tg_ is not None and not g.ifs and all(isinstance(t, ast.Name) for t in tg_) and all(
+                    isinstance(el, (ast.Tuple, ast.List)) and len(el.elts) == len(tg_) and all(
+                        isinstance(v, ast.Constant) and isinstance(v.value, int) and not isinstance(v.value, bool) for v in el.elts) for el in elts):
+                # any(lo <= c <= hi for lo, hi in TABLE): one instance per row, the targets bound to the row's constants
+                vals = []
+                for el in elts:
+                    saved_c2 = dict(cenv)
+                    cenv.update({t.id: v.value for t, v in zip(tg_, el.elts)})          # type: ignore[union-attr]
+                    vals.append(bval(e.args[0].elt, iv, env))
+                    cenv.clear()
+                    cenv.update(saved_c2)
+                if e.func.id == "any":
+                    return T if any(v == T for v in vals) else F if all(v == F for v in vals) else B
+                return F if any(v == F for v in vals) else T if all(v == T for v in vals) else B
         return B
 
     def run(stmts: list[ast.stmt], iv: tuple[int, int]) -> frozenset:
